@@ -104,7 +104,7 @@ static int at_rest(slot_t *s) {
 }
 // wait (bounded) until cond; returns 1 when it became true
 static int wait_delivered(slot_t *s, int want_sentinel) {
-	for (int i = 0; i < 30000; i++) { // <= 30 s
+	for (int i = 0; i < 12000; i++) { // >= 12 s
 		if (rd_pending(s) == 0 && at_rest(s) && (!want_sentinel || atomic_load(&s->saw_sentinel))) {
 			usleep(200);
 			if (rd_pending(s) == 0 && at_rest(s)) return 1;
